@@ -257,7 +257,8 @@ func preprocess(workerID string, seed *models.Item) {
 		if err != nil {
 			logger.Warn("unable to seencheck seed", "seed_id", seed.GetShortID(), "err", err.Error(), "func", "preprocessor.preprocess")
 		}
-	} else {
+	} else if config.Get().UseSeencheck {
+		// The local seencheck database is only opened when the seencheck is enabled
 		err = seencheck.SeencheckItem(seed)
 		if err != nil {
 			logger.Warn("unable to seencheck seed", "seed_id", seed.GetShortID(), "err", err.Error(), "func", "preprocessor.preprocess")
